@@ -43,6 +43,7 @@ func init() {
 			{ID: "C10.20", Desc: "every source of stale-if-error is consulted before the origin's failure is returned", Run: func(c *Ctx) { ruleC13_4(c); renameRule(c, "C13.4", "C10.20") }, MinSites: 1},
 			{ID: "C10.21", Desc: "the origin's error response is closed when the stored one is served instead (no connection is left checked out)", Run: func(c *Ctx) { ruleSIEClosesOriginBody(c, "C10.21") }, MinSites: 1},
 			{ID: "C10.22", Desc: "an entry whose recorded times cannot be read is unreadable", Run: func(c *Ctx) { ruleMetaTimesChecked(c, "C10.22") }, MinSites: 1},
+			{ID: "C10.23", Desc: "fields are set only on request headers that cannot be nil", Run: func(c *Ctx) { ruleRequestHeaderWritesNonNil(c, "C10.23") }, MinSites: 1},
 		},
 	})
 }
